@@ -1,5 +1,7 @@
 Require Import ExtrOcamlBasic.
-From Eupsv Require Import Base.Base Model.PathAlg Model.Setup Model.SetupWf Model.Resolve Model.SetupFull Generated.Config.
+From Eupsv Require Import Base.Base Model.PathAlg Model.Setup Model.SetupWf Model.Resolve Model.SetupFull Generated.Config
+  Model.SetupText.
 Extraction "model.ml" keep_types setup request find_setup_product setup_string
   wf2_check wf2_fields dl_of rank_of
-  request_full_simple setup_full_simple select_vro entry_str site_config default_config.
+  request_full_simple setup_full_simple select_vro entry_str site_config default_config
+  world_of_text product_of_text setup_text request_text.
